@@ -95,20 +95,22 @@ func addProp(p *propCfg) {
 }
 
 func init() {
-	addProp(&propCfg{id: "C01", quick: tierCfg{3000, 60, 25}, thorough: tierCfg{400000, 900, 200}})
-	addProp(&propCfg{id: "C04", quick: tierCfg{4000, 60, 25}, thorough: tierCfg{400000, 600, 200}})
-	addProp(&propCfg{id: "C10", quick: tierCfg{4000, 60, 25}, thorough: tierCfg{400000, 900, 200}})
-	addProp(&propCfg{id: "C14", quick: tierCfg{4000, 60, 25}, thorough: tierCfg{400000, 900, 200}})
-	addProp(&propCfg{id: "C17", quick: tierCfg{6000, 60, 25}, thorough: tierCfg{400000, 900, 200}})
-	addProp(&propCfg{id: "C18", quick: tierCfg{6000, 60, 25}, thorough: tierCfg{400000, 900, 200}})
-	addProp(&propCfg{id: "C19", quick: tierCfg{6000, 60, 25}, thorough: tierCfg{400000, 600, 200}})
+	// quick: as many runs as fit comfortably into the 60 s budget on 16 cores
+	// (the budget, not the count, bounds the run on a slower machine)
+	addProp(&propCfg{id: "C01", quick: tierCfg{6000, 60, 50}, thorough: tierCfg{400000, 900, 200}})
 	addProp(&propCfg{id: "C02", quick: tierCfg{4000, 60, 25}, thorough: tierCfg{300000, 900, 200}})
 	addProp(&propCfg{id: "C03", quick: tierCfg{4000, 60, 25}, thorough: tierCfg{300000, 900, 200}})
-	addProp(&propCfg{id: "C12", quick: tierCfg{4000, 60, 25}, thorough: tierCfg{300000, 900, 200}})
-	addProp(&propCfg{id: "C11", quick: tierCfg{8000, 60, 25}, thorough: tierCfg{600000, 900, 200}})
-	addProp(&propCfg{id: "C13", quick: tierCfg{6000, 60, 25}, thorough: tierCfg{400000, 900, 200}})
-	addProp(&propCfg{id: "C16", race: true, quick: tierCfg{1500, 75, 50}, thorough: tierCfg{100000, 1200, 400}})
-	addProp(&propCfg{id: "C15", quick: tierCfg{4000, 60, 25}, thorough: tierCfg{400000, 900, 200}})
+	addProp(&propCfg{id: "C04", quick: tierCfg{16000, 60, 100}, thorough: tierCfg{800000, 600, 400}})
+	addProp(&propCfg{id: "C10", quick: tierCfg{8000, 60, 50}, thorough: tierCfg{400000, 900, 200}})
+	addProp(&propCfg{id: "C11", quick: tierCfg{20000, 60, 100}, thorough: tierCfg{1000000, 900, 400}})
+	addProp(&propCfg{id: "C12", quick: tierCfg{12000, 60, 50}, thorough: tierCfg{600000, 900, 200}})
+	addProp(&propCfg{id: "C13", quick: tierCfg{8000, 60, 50}, thorough: tierCfg{400000, 900, 200}})
+	addProp(&propCfg{id: "C14", quick: tierCfg{20000, 60, 100}, thorough: tierCfg{1000000, 900, 400}})
+	addProp(&propCfg{id: "C15", quick: tierCfg{6000, 60, 50}, thorough: tierCfg{400000, 900, 200}})
+	addProp(&propCfg{id: "C16", race: true, quick: tierCfg{3000, 75, 50}, thorough: tierCfg{100000, 1200, 400}})
+	addProp(&propCfg{id: "C17", quick: tierCfg{24000, 60, 100}, thorough: tierCfg{1200000, 900, 400}})
+	addProp(&propCfg{id: "C18", quick: tierCfg{24000, 60, 100}, thorough: tierCfg{1200000, 900, 400}})
+	addProp(&propCfg{id: "C19", quick: tierCfg{20000, 60, 100}, thorough: tierCfg{1000000, 600, 400}})
 }
 
 // ---------------------------------------------------------------------------
